@@ -191,13 +191,13 @@ static void dec_check(const uint8_t *text, size_t n) {
     g_dec_prelen = 0;
 }
 static void dec_check1(const uint8_t *text, size_t n) {
-    uint8_t ref[64];
+    uint8_t ref[128];
     int why;
     long rlen = r_b64dec(text, n, ref, &why);
     V_COUNT("evaluations", 1);
     if (n && (text[n - 1] == '=' || rlen < 0)) V_COUNT("nontrivial", 1);
     int verdict[2];
-    uint8_t got[2][64];
+    uint8_t got[2][128];
     size_t gotlen[2] = {0, 0};
     for (int path = 0; path < 2; ++path) {
         enc_fn d = path ? p_aws_base64_decode : aws_base64_decode;
@@ -313,6 +313,31 @@ static void decbody_eval(uint64_t idx, void *ctx) {
     t[pos] = (uint8_t)val;
     V_COUNT("dec_vector_body", 1);
     dec_check(t, 44);
+}
+
+/* the same for texts of 68, 100 and 132 characters: two to four full vector blocks and a tail - a malformed character in
+ * ANY block has to be refused, not only in the last one (added after a seeded change whose vector loop kept only the verdict
+ * of its last block) */
+static const unsigned LB_LEN[3] = {68, 100, 132};
+static uint64_t declong_total(void) { return (68ull + 100 + 132) * 256 * 2; }
+static void declong_eval(uint64_t idx, void *ctx) {
+    (void)ctx;
+    BEE_ITEM(idx);
+    uint64_t x = idx;
+    unsigned padded = bee_digit(&x, 2), val = bee_digit(&x, 256);
+    unsigned which = 0, pos = (unsigned)x;
+    while (pos >= LB_LEN[which]) pos -= LB_LEN[which++];
+    unsigned L = LB_LEN[which];
+    uint8_t t[132];
+    for (size_t i = 0; i < L; ++i) t[i] = (uint8_t)r_b64char((unsigned)(i * 7 + 1) & 63);
+    if (padded) {
+        t[L - 2] = (uint8_t)r_b64char(4 * 5); /* zero trailing bits for one pad */
+        t[L - 1] = '=';
+    }
+    t[pos] = (uint8_t)val;
+    V_COUNT("dec_vector_body_long", 1);
+    if (pos + 36 <= L) V_COUNT("nontrivial", 1); /* the changed character sits in a vector block that is not the last one */
+    dec_check(t, L);
 }
 
 /* ---------- hex ---------- */
@@ -512,6 +537,84 @@ static void utf8_eval(uint64_t idx, void *ctx) {
 }
 
 
+/* ---------- UTF-8: longer texts with ASCII runs ----------
+ * texts = up to two lead symbols, an ASCII run of 0..20 bytes, one trailing symbol; symbols are 'a', U+00E9 (2 bytes),
+ * U+20AC (3 bytes), U+1F600 (4 bytes).  The code points reported must be the same - and the ones the text was built from -
+ * whether the text is fed whole, byte by byte, or cut once at any position (added after a seeded change whose fast path
+ * stepped over words of ASCII without reporting them) */
+static const uint8_t U8SYM[4][4] = {{'a'}, {0xC3, 0xA9}, {0xE2, 0x82, 0xAC}, {0xF0, 0x9F, 0x98, 0x80}};
+static const unsigned U8SYM_LEN[4] = {1, 2, 3, 4};
+static const uint32_t U8SYM_CP[4] = {'a', 0xE9, 0x20AC, 0x1F600};
+struct cplog32 {
+    uint32_t cp[40];
+    int n;
+};
+static int on_cp32(uint32_t cp, void *ud) {
+    struct cplog32 *l = (struct cplog32 *)ud;
+    if (l->n < 40) l->cp[l->n] = cp;
+    l->n++;
+    return AWS_OP_SUCCESS;
+}
+static uint64_t utf8long_total(void) { return 5ull * 5 * 21 * 4; }
+static void utf8long_eval(uint64_t idx, void *ctx) {
+    (void)ctx;
+    BEE_ITEM(idx);
+    uint64_t x = idx;
+    unsigned tail = bee_digit(&x, 4), run = bee_digit(&x, 21), s2 = bee_digit(&x, 5), s1 = bee_digit(&x, 5);
+    uint8_t t[64];
+    uint32_t want[40];
+    size_t n = 0;
+    int nw = 0;
+    unsigned lead[2] = {s1, s2};
+    for (int k = 0; k < 2; ++k)
+        if (lead[k] < 4) {
+            memcpy(t + n, U8SYM[lead[k]], U8SYM_LEN[lead[k]]);
+            n += U8SYM_LEN[lead[k]];
+            want[nw++] = U8SYM_CP[lead[k]];
+        }
+    for (unsigned i = 0; i < run; ++i) {
+        t[n] = (uint8_t)('0' + (i % 10));
+        want[nw++] = t[n];
+        ++n;
+    }
+    memcpy(t + n, U8SYM[tail], U8SYM_LEN[tail]);
+    n += U8SYM_LEN[tail];
+    want[nw++] = U8SYM_CP[tail];
+    uint8_t *src = bee_block(t, n);
+    /* feeding plans: 0 = whole, 1 = byte by byte, 2.. = one cut after byte (plan-1) */
+    for (size_t plan = 0; plan < n + 1; ++plan) {
+        V_COUNT("evaluations", 1);
+        if (run >= 8) V_COUNT("nontrivial", 1);
+        struct cplog32 got = {{0}, 0};
+        struct aws_utf8_decoder_options o = {.on_codepoint = on_cp32, .user_data = &got};
+        struct aws_utf8_decoder *d = aws_utf8_decoder_new(aws_default_allocator(), &o);
+        int ok = 1;
+        if (plan == 0) {
+            ok = aws_utf8_decoder_update(d, aws_byte_cursor_from_array(src, n)) == AWS_OP_SUCCESS;
+        } else if (plan == 1) {
+            for (size_t i = 0; i < n && ok; ++i) {
+                uint8_t *c = bee_block(src + i, 1);
+                ok = aws_utf8_decoder_update(d, aws_byte_cursor_from_array(c, 1)) == AWS_OP_SUCCESS;
+                free(c);
+            }
+        } else {
+            size_t cut = plan - 1;
+            uint8_t *c1 = bee_block(src, cut), *c2 = bee_block(src + cut, n - cut);
+            ok = aws_utf8_decoder_update(d, aws_byte_cursor_from_array(c1, cut)) == AWS_OP_SUCCESS && aws_utf8_decoder_update(d, aws_byte_cursor_from_array(c2, n - cut)) == AWS_OP_SUCCESS;
+            free(c1);
+            free(c2);
+        }
+        if (ok) ok = aws_utf8_decoder_finalize(d) == AWS_OP_SUCCESS;
+        aws_utf8_decoder_destroy(d);
+        BEE_CHECK(ok, "utf8-valid-text-refused", "well-formed %zu-byte text %s refused (feeding plan %zu)", n, v_show(t, n), plan);
+        int same = got.n == nw;
+        for (int k = 0; same && k < nw; ++k) same = got.cp[k] == want[k];
+        BEE_CHECK(same, "utf8-chunk-codepoints", "text %s (%d code points) fed %s: %d code points reported%s", v_show(t, n), nw, plan == 0 ? "whole" : plan == 1 ? "byte by byte" : "in two pieces", got.n,
+                  got.n == nw ? ", with different values" : "");
+    }
+    free(src);
+}
+
 /* ---------- UTF-8: one decoder object used for two texts in a row ----------
  * aws_utf8_decoder_finalize "also resets the decoder" (encoding.h): whatever the first text was - valid, invalid, or cut in
  * the middle of a sequence - the verdict and code points of the second text must be those of a fresh decoder.
@@ -578,6 +681,8 @@ int main(int argc, char **argv) {
     bee_register("lens", lens_total, lens_eval, 10);
     bee_register("utf8", utf8_total, utf8_eval, 10);
     bee_register("utf8reuse", utf8reuse_total, utf8reuse_eval, 10);
+    bee_register("utf8long", utf8long_total, utf8long_eval, 10);
+    bee_register("declong", declong_total, declong_eval, 10);
     v_sample("b64dec4 index 1234 = 4 symbols over {A B Q / + = NUL - 0xFF}; b64enc index = (len,pos,value,capacity-mode,start-len) odometer");
     return bee_main(argc, argv);
 }
